@@ -1,4 +1,5 @@
 import TR.Lemmas.Fallback
+import TR.Lemmas.FallbackRun
 /-!
 # Fallback: the caller's post-processing of a result and two layers stacked — helper lemmas for C17
 
@@ -289,6 +290,222 @@ theorem mem_liftLog_up {u : Cfg} {c : Nat} {cb : Callback} :
       | notReady c1 =>
           simp only [liftLog, List.mem_cons, reduceCtorEq, false_or] at h; exact tail _ _ h
 
+/-! ## the upper layer's value-function counter, read off the stack's log -/
+
+def isUpValueFn : SEv → Bool
+  | .up _ (.valueFn _) => true
+  | _ => false
+
+/-- a decision invokes the value function at most once, with the counter it was given -/
+theorem afterInner_cbs_valueFn (cfg : Cfg) (rq : Request) (n : Nat) (ri : IRes) :
+    (afterInner cfg rq n ri).cbs.countP isValueFnCb ≤ 1 ∧ ∀ m, Callback.valueFn m ∈ (afterInner cfg rq n ri).cbs → m = n := by
+  constructor
+  · cases ri with
+    | ok r => simp [afterInner_ok_cbs]
+    | err e =>
+        rw [afterInner_err_cbs]
+        have hp : (predCalls cfg e).countP isValueFnCb = 0 := by
+          unfold predCalls; split <;> simp [isValueFnCb]
+        rw [List.countP_append, hp]
+        split
+        · cases strategyCall cfg rq n e <;> simp [List.countP_cons]
+          split <;> omega
+        · simp
+  · intro m hm
+    obtain ⟨e, _, hh | hh⟩ := mem_afterInner_cbs hm
+    · cases hh.1
+    · have := hh.2
+      unfold strategyCall at this
+      split at this <;> simp at this
+      exact this.symm
+
+theorem upperFinish_cbs (u : Cfg) (rq : Request) (n : Nat) (o : Outcome) :
+    (upperFinish u rq n o).1 = (afterInner u rq n o.asInner).cbs := by
+  unfold upperFinish
+  cases afterInner u rq n o.asInner <;> rfl
+
+theorem countP_up_valueFn (c : Nat) (cbs : List Callback) :
+    (cbs.map (SEv.up c)).countP isUpValueFn = cbs.countP isValueFnCb := by
+  induction cbs with
+  | nil => rfl
+  | cons cb tl ih =>
+      simp only [List.map_cons, List.countP_cons, ih]
+      cases cb <;> simp [isUpValueFn, isValueFnCb]
+
+/-- wherever an invocation of the upper layer's value function stands in the stack's log, its invocation
+number is the start value of the counter plus the number of such invocations before it -/
+theorem liftLog_valueFn_counter (u : Cfg) :
+    ∀ (l : List FEv) (n : Nat) (rqs : List (Nat × Request)) (pre post : List SEv) (c m : Nat),
+      liftLog u n rqs l = pre ++ .up c (.valueFn m) :: post → m = n + pre.countP isUpValueFn := by
+  intro l
+  induction l with
+  | nil => intro n rqs pre post c m h; simp [liftLog] at h
+  | cons e tl ih =>
+      intro n rqs pre post c m h
+      -- the shared case: the head of the lifted log is one `low` event
+      have one : ∀ (e' : FEv) n' rqs', SEv.low e' :: liftLog u n' rqs' tl = pre ++ .up c (.valueFn m) :: post →
+          m = n' + pre.countP isUpValueFn := by
+        intro e' n' rqs' h'
+        cases pre with
+        | nil => simp at h'
+        | cons x pre' =>
+            simp only [List.cons_append, List.cons.injEq] at h'
+            obtain ⟨hx, h'⟩ := h'
+            subst hx
+            rw [ih n' rqs' pre' post c m h']
+            simp [isUpValueFn]
+      cases e with
+      | innerCall c1 k rq1 => exact one _ _ _ (by simpa [liftLog] using h)
+      | innerDone c1 k o1 => exact one _ _ _ (by simpa [liftLog] using h)
+      | innerDrop c1 k => exact one _ _ _ (by simpa [liftLog] using h)
+      | backupCall c1 k rq1 => exact one _ _ _ (by simpa [liftLog] using h)
+      | backupDone c1 k o1 => exact one _ _ _ (by simpa [liftLog] using h)
+      | backupDrop c1 k => exact one _ _ _ (by simpa [liftLog] using h)
+      | callback c1 cb1 => exact one _ _ _ (by simpa [liftLog] using h)
+      | panicked c1 => exact one _ _ _ (by simpa [liftLog] using h)
+      | notReady c1 => exact one _ _ _ (by simpa [liftLog] using h)
+      | resp c1 o1 =>
+          simp only [liftLog] at h
+          split at h
+          · exact ih n rqs pre post c m h
+          · exact one _ _ _ h
+      | result c1 o1 =>
+          simp only [liftLog] at h
+          split at h
+          · rename_i rq hrq
+            have hv := afterInner_cbs_valueFn u rq n o1.asInner
+            rw [← upperFinish_cbs] at hv
+            rcases List.append_eq_append_iff.mp h with ⟨a, hpre, hR⟩ | ⟨a, hcbs, hR⟩
+            · -- after the upper layer's callbacks: behind the two result lines
+              cases a with
+              | nil => simp at hR
+              | cons x a1 =>
+                  simp only [List.cons_append, List.cons.injEq] at hR
+                  obtain ⟨hx, hR⟩ := hR
+                  subst hx
+                  cases a1 with
+                  | nil => simp at hR
+                  | cons y a2 =>
+                      simp only [List.cons_append, List.cons.injEq] at hR
+                      obtain ⟨hy, hR⟩ := hR
+                      subst hy
+                      rw [ih _ rqs a2 post c m hR, hpre]
+                      simp only [List.countP_append, List.countP_cons, countP_up_valueFn, isUpValueFn]
+                      simp; omega
+            · -- among the upper layer's callbacks of this result
+              cases a with
+              | nil => simp at hR
+              | cons x a1 =>
+                  simp only [List.cons_append, List.cons.injEq] at hR
+                  obtain ⟨hx, _⟩ := hR
+                  subst hx
+                  obtain ⟨l1, l2, hl, h1, h2⟩ := List.map_eq_append_iff.mp hcbs
+                  cases l2 with
+                  | nil => simp at h2
+                  | cons cb l2' =>
+                      simp only [List.map_cons, List.cons.injEq, SEv.up.injEq] at h2
+                      obtain ⟨⟨_, hcb⟩, _⟩ := h2
+                      subst hcb
+                      have hm : m = n := hv.2 m (by rw [hl]; simp)
+                      have hle := hv.1
+                      rw [hl] at hle
+                      simp only [List.countP_append, List.countP_cons, isValueFnCb, if_true] at hle
+                      rw [← h1, countP_up_valueFn, hm]
+                      omega
+          · exact one _ _ _ h
+
+/-! ## the caller's log -/
+
+theorem callerLog_append (posts : List (Nat × List PostStep)) (a b : List SEv) :
+    callerLog posts (a ++ b) = callerLog posts a ++ callerLog posts b := by
+  simp [callerLog]
+
+theorem callerLog_cons (posts : List (Nat × List PostStep)) (e : SEv) (l : List SEv) :
+    callerLog posts (e :: l) = callerSees posts e ++ callerLog posts l := by
+  simp [callerLog]
+
+theorem mem_callerLog {posts : List (Nat × List PostStep)} {l : List SEv} {x : CEv} :
+    x ∈ callerLog posts l ↔ ∃ e ∈ l, x ∈ callerSees posts e := by
+  simp only [callerLog, List.mem_flatten, List.mem_map]
+  constructor
+  · rintro ⟨_, ⟨e, he, rfl⟩, hx⟩; exact ⟨e, he, hx⟩
+  · rintro ⟨e, he, hx⟩; exact ⟨_, ⟨e, he, rfl⟩, hx⟩
+
+/-- a `result` line of the caller's log is `postRun` of a result the (stack of) layer(s) delivered … -/
+theorem mem_callerLog_result {posts : List (Nat × List PostStep)} {l : List SEv} {c : Nat} {o' : Outcome} :
+    CEv.ev (.low (.result c o')) ∈ callerLog posts l ↔
+      ∃ o, SEv.low (.result c o) ∈ l ∧ o' = (postRun (stepsOf posts c) o).2 := by
+  rw [mem_callerLog]
+  constructor
+  · rintro ⟨e, he, hx⟩
+    cases e with
+    | up c1 cb => simp [callerSees] at hx
+    | low e =>
+        cases e <;> simp [callerSees] at hx
+        case result c1 o1 =>
+          obtain ⟨hc, ho⟩ := hx
+          subst hc
+          exact ⟨o1, he, ho⟩
+  · rintro ⟨o, ho, rfl⟩
+    exact ⟨_, ho, by simp [callerSees]⟩
+
+/-- … so is a `resp` line … -/
+theorem mem_callerLog_resp {posts : List (Nat × List PostStep)} {l : List SEv} {c : Nat} {o' : Outcome} :
+    CEv.ev (.low (.resp c o')) ∈ callerLog posts l ↔
+      ∃ o, SEv.low (.resp c o) ∈ l ∧ o' = (postRun (stepsOf posts c) o).2 := by
+  rw [mem_callerLog]
+  constructor
+  · rintro ⟨e, he, hx⟩
+    cases e with
+    | up c1 cb => simp [callerSees] at hx
+    | low e =>
+        cases e <;> simp [callerSees] at hx
+        case resp c1 o1 =>
+          obtain ⟨hc, ho⟩ := hx
+          subst hc
+          exact ⟨o1, he, ho⟩
+  · rintro ⟨o, ho, rfl⟩
+    exact ⟨_, ho, by simp [callerSees]⟩
+
+/-- … and a `view` line is one of the looks `postRun` takes at a delivered result. -/
+theorem mem_callerLog_view {posts : List (Nat × List PostStep)} {l : List SEv} {c : Nat} {v : View} :
+    CEv.view c v ∈ callerLog posts l ↔ ∃ o, SEv.low (.resp c o) ∈ l ∧ v ∈ (postRun (stepsOf posts c) o).1 := by
+  rw [mem_callerLog]
+  constructor
+  · rintro ⟨e, he, hx⟩
+    cases e with
+    | up c1 cb => simp [callerSees] at hx
+    | low e =>
+        cases e <;> simp [callerSees] at hx
+        case resp c1 o1 =>
+          obtain ⟨hv, hc⟩ := hx
+          subst hc
+          exact ⟨o1, he, hv⟩
+  · rintro ⟨o, ho, hv⟩
+    exact ⟨_, ho, by simp [callerSees, hv]⟩
+
+/-- every other event is logged as it is -/
+theorem mem_callerLog_other {posts : List (Nat × List PostStep)} {l : List SEv} {e : SEv}
+    (h1 : ∀ c o, e ≠ .low (.resp c o)) (h2 : ∀ c o, e ≠ .low (.result c o)) :
+    CEv.ev e ∈ callerLog posts l ↔ e ∈ l := by
+  rw [mem_callerLog]
+  constructor
+  · rintro ⟨e', he, hx⟩
+    cases e' with
+    | up c1 cb => simp [callerSees] at hx; subst hx; exact he
+    | low e' =>
+        cases e' <;> simp [callerSees] at hx <;> first | (subst hx; exact he) | skip
+        case resp c1 o1 => exact absurd hx (by intro h; exact h1 c1 _ h)
+        case result c1 o1 => exact absurd hx (by intro h; exact h2 c1 _ h)
+  · intro he
+    refine ⟨e, he, ?_⟩
+    cases e with
+    | up c1 cb => simp [callerSees]
+    | low e' =>
+        cases e' <;> simp [callerSees]
+        case resp c1 o1 => exact absurd rfl (h1 c1 o1)
+        case result c1 o1 => exact absurd rfl (h2 c1 o1)
+
 /-! Equation lemmas of the new definitions are realised here, so that the property module declares
 property theorems only. -/
 section realise
@@ -312,6 +529,12 @@ theorem equations_realised_stack : True := by
   have := @stackResolve.eq_1
   have := @stackLog.eq_1
   have := @shortcut.eq_1
+  have := @stepsOf.eq_1
+  have := @callerSees.eq_1
+  have := @callerLog.eq_1
+  have := @isUpValueFn.eq_1
+  have := @test.eq_1
+  have := @maskPred.eq_1
   trivial
 end realise
 
